@@ -309,6 +309,12 @@ where
     let mut shift = -jac_inv * func_eval;
     guess += &shift;
 
+    // Already converged (a start on the root, or an affine system solved by the first step):
+    // a further Broyden update would divide by the vanishing change of the function.
+    if shift.norm().abs() <= tol {
+        return Ok(guess);
+    }
+
     while n < n_max {
         let func_eval_last = func_eval;
         func_eval = func(guess.as_slice());
